@@ -197,29 +197,39 @@ class Code310(Code38):
         in lnotab_notes.txt.
 
         """
-        co_linetable = b""
+        co_linetable = bytearray()
+
+        # Each 3.10 entry gives the line of a *range* of code: (length of the
+        # range, line increment from the previous range's line).  So a line
+        # that starts at an offset runs up to the next offset, or to the end
+        # of the code for the last one.
+        entries = list(self.co_linetable)
+        ends = [offset for offset, _ in entries[1:]] + [len(self.co_code)]
+        if entries and entries[0][0] > 0:
+            # Code before the first offset is on the first line.
+            entries.insert(0, (0, self.co_firstlineno))
+            ends.insert(0, entries[1][0])
 
         prev_line_number = self.co_firstlineno
-        prev_offset = 0
-        offset_diff = 0
-
-        for offset, line_number in self.co_linetable:
+        for (offset, line_number), end_offset in zip(entries, ends):
+            offset_diff = end_offset - offset
+            if offset_diff <= 0:
+                continue
             line_diff = line_number - prev_line_number
             prev_line_number = line_number
-            offset_diff = offset - prev_offset
-            prev_offset = offset
-            while offset_diff >= 256:
-                co_linetable += bytearray([255, 0])
-                offset_diff -= 255
-            co_linetable += bytearray([offset_diff, line_diff % 256])
-            while line_diff >= 127:
+            while line_diff > 127:
                 co_linetable += bytearray([0, 127])
                 line_diff -= 127
             while line_diff < -127:
-                co_linetable += bytearray([0, -127])
-                line_diff -= 127
+                co_linetable += bytearray([0, -127 & 0xFF])
+                line_diff += 127
+            while offset_diff > 254:
+                co_linetable += bytearray([254, line_diff & 0xFF])
+                line_diff = 0
+                offset_diff -= 254
+            co_linetable += bytearray([offset_diff, line_diff & 0xFF])
 
-        self.co_linetable = co_linetable
+        self.co_linetable = bytes(co_linetable)
 
     def freeze(self):
         for field in "co_consts co_names co_varnames co_freevars co_cellvars".split():
